@@ -1,6 +1,7 @@
 package props
 
 import (
+	"sync"
 	"bytes"
 	"fmt"
 	"testing"
@@ -97,7 +98,23 @@ func TestC20(t *testing.T) {
 	if err != nil {
 		t.Fatal(err)
 	}
-	rec.Suite("search", rec.N(40000, 20000000), func(c *ev.Case) {
+	// nesting up to and beyond what the decoder accepts (diam.MaxGroupedAVPDepth = 128)
+	depths := []int{1, 2, 3, 31, 64, 100, 126, 127, 128, 129, 130, 160, 257}
+	rec.Suite("deep-chains", len(depths)*2, func(c *ev.Case) {
+		d := depths[c.I%len(depths)]
+		decoded := c.I/len(depths) == 1
+		if decoded && d > diam.MaxGroupedAVPDepth {
+			return
+		}
+		c.Class("deep-chain/depth=%d/decoded=%v", d, decoded)
+		c20Deep(c, g, d, decoded)
+	})
+	rec.Suite("concurrent-searches", rec.N(300, 60000), func(c *ev.Case) { c20Concurrent(c, g) })
+	nSearch := rec.N(40000, 20000000)
+	if rec.Race() {
+		nSearch = rec.N(4000, 400000)
+	}
+	rec.Suite("search", nSearch, func(c *ev.Case) {
 		r := c.R
 		var ctx *lib.Ctx
 		var m *gen.Msg
@@ -334,6 +351,187 @@ func TestC20(t *testing.T) {
 			}
 		}
 	})
+}
+
+// c20Deep: a chain of groups nested `depth` levels, a leaf (code 9009) at every
+// level: decoded from the wire up to the depth the decoder accepts, built
+// through the API beyond that. Search by number, by name and by the full path.
+func c20Deep(c *ev.Case, g *lib.Ctx, depth int, decoded bool) {
+	sig := func(op string) ev.Sig { return ev.Sig{"op": op, "kind": "deep-chain"} }
+	cur := []*refcodec.Node{{Code: 9009, Flags: 0x40, Kind: refcodec.Unsigned32, U: uint64(depth)}}
+	for d := depth; d >= 1; d-- {
+		grp := &refcodec.Node{Code: 9018, Flags: 0x40, Kind: refcodec.Grouped, Kids: cur}
+		cur = []*refcodec.Node{{Code: 9009, Flags: 0x40, Kind: refcodec.Unsigned32, U: uint64(d - 1)}, grp}
+	}
+	m := &gen.Msg{H: refcodec.Header{Version: 1, Flags: 0x80, Code: 8388000, HopByHop: 1, EndToEnd: 1}, Nodes: cur}
+	dm := lib.Build(g.Parser, m, 0)
+	if decoded {
+		wire, err := dm.Serialize()
+		if err == nil {
+			dm, err = diam.ReadMessage(bytes.NewReader(wire), g.Parser)
+		}
+		if err != nil {
+			c.Fail(sig("setup"), nil, nil, "groups nested %d deep: %v", depth, err)
+			return
+		}
+	}
+	var wantLeafs, wantGroups []*diam.AVP
+	refWalk(dm.AVP, 9009, &wantLeafs)
+	refWalk(dm.AVP, 9018, &wantGroups)
+	if len(wantLeafs) != depth+1 || len(wantGroups) != depth {
+		c.Fail(sig("setup"), nil, nil, "reference walk of a %d-level chain finds %d leafs and %d groups", depth, len(wantLeafs), len(wantGroups))
+		return
+	}
+	desc := fmt.Sprintf("groups nested %d deep (decoded=%v), one leaf per level", depth, decoded)
+	for _, q := range []struct {
+		query any
+		want  []*diam.AVP
+	}{{9009, wantLeafs}, {uint32(9009), wantLeafs}, {"G-U32", wantLeafs}, {9018, wantGroups}, {"G-Group", wantGroups}} {
+		var got []*diam.AVP
+		var one *diam.AVP
+		var err, err1 error
+		if p, bad := guard(func() { got, err = dm.FindAVPs(q.query, refdict.AnyVendor); one, err1 = dm.FindAVP(q.query, refdict.AnyVendor) }); bad {
+			c.Fail(sig("panic"), nil, nil, "search panicked: %s; %s", p, desc)
+			return
+		}
+		if err != nil || !samePtrs(got, q.want) {
+			c.Fail(sig("FindAVPs"), nil, nil, "FindAVPs(%v) returned %d AVPs (err=%v), the reference walk finds %d; %s", q.query, len(got), err, len(q.want), desc)
+			return
+		}
+		if err1 != nil || one != q.want[0] {
+			c.Fail(sig("FindAVP"), nil, nil, "FindAVP(%v) did not return the first AVP in document order (err=%v); %s", q.query, err1, desc)
+			return
+		}
+		c.Event("queries", 2)
+	}
+	// the path to the innermost leaf, and to every level on the way
+	for _, plen := range []int{depth, depth / 2, 1} {
+		if plen < 1 {
+			continue
+		}
+		var path []any
+		var codes []uint32
+		for i := 0; i < plen; i++ {
+			path = append(path, []any{9018, uint32(9018), "G-Group"}[i%3])
+			codes = append(codes, 9018)
+		}
+		path, codes = append(path, "G-U32"), append(codes, 9009)
+		var want []*diam.AVP
+		refPath(dm.AVP, codes, &want)
+		var got []*diam.AVP
+		var err error
+		if p, bad := guard(func() { got, err = dm.FindAVPsWithPath(path, refdict.AnyVendor) }); bad {
+			c.Fail(ev.Sig{"op": "panic", "form": "path", "kind": "deep-chain"}, nil, nil, "FindAVPsWithPath panicked: %s; %s", p, desc)
+			return
+		}
+		if err != nil || len(want) != 1 || !samePtrs(got, want) {
+			c.Fail(ev.Sig{"op": "FindAVPsWithPath", "kind": "deep-chain"}, nil, nil, "FindAVPsWithPath with a path of %d groups and the leaf returned %d AVPs (err=%v), the reference finds %d; %s", plen, len(got), err, len(want), desc)
+			return
+		}
+		c.Event("path_queries", 1)
+	}
+}
+
+// c20Concurrent: G goroutines search one message at the same time (searching is
+// read-only); an earlier search that found nothing precedes them. Every result
+// is compared with the reference walk.
+func c20Concurrent(c *ev.Case, g *lib.Ctx) {
+	r := c.R
+	// a large tree (hundreds to thousands of AVPs), so that searches take long enough to overlap
+	var nodes []*refcodec.Node
+	for k := 5 + r.IntN(60); k > 0; k-- {
+		nodes = append(nodes, denseTree(c, 0)...)
+	}
+	m := &gen.Msg{H: refcodec.Header{Version: 1, Flags: 0x80, Code: 8388000, HopByHop: 1, EndToEnd: 1}, Nodes: nodes}
+	dm := lib.Build(g.Parser, m, c.I)
+	if r.IntN(2) == 0 {
+		wire, err := dm.Serialize()
+		if err == nil {
+			dm, err = diam.ReadMessage(bytes.NewReader(wire), g.Parser)
+		}
+		if err != nil {
+			c.Fail(ev.Sig{"op": "setup"}, nil, nil, "%v", err)
+			return
+		}
+	}
+	dm.FindAVP(777001, refdict.AnyVendor) // a search that finds nothing
+	dm.FindAVPs(777002, refdict.AnyVendor)
+	var codes []uint32
+	seen := map[uint32]bool{}
+	gen.Walk(m.Nodes, 0, func(n *refcodec.Node, d int) {
+		if !seen[n.Code] {
+			seen[n.Code] = true
+			codes = append(codes, n.Code)
+		}
+	})
+	codes = append(codes, 777000, 264)
+	G := 2 + r.IntN(7)
+	c.Class("concurrent-searches/G=%d", G)
+	var mu sync.Mutex
+	problem := ""
+	var wg sync.WaitGroup
+	start := make(chan struct{})
+	for gi := 0; gi < G; gi++ {
+		qs := make([]uint32, 200)
+		for i := range qs {
+			qs[i] = codes[r.IntN(len(codes))]
+			if r.IntN(4) == 0 {
+				qs[i] = []uint32{264, 9023, 9024, 268}[r.IntN(4)] // mostly absent from the tree
+			}
+		}
+		wg.Add(1)
+		go func() {
+			defer wg.Done()
+			<-start
+			for i, code := range qs {
+				var want []*diam.AVP
+				refWalk(dm.AVP, code, &want)
+				var got []*diam.AVP
+				var one *diam.AVP
+				var err, err1 error
+				p, bad := guard(func() {
+					if i%2 == 0 {
+						got, err = dm.FindAVPs(code, refdict.AnyVendor)
+					} else {
+						got, err = dm.FindAVPs(int(code), refdict.AnyVendor)
+					}
+					one, err1 = dm.FindAVP(code, refdict.AnyVendor)
+				})
+				msg := ""
+				_, defined := g.Ix.FindAVP(0, code, refdict.AnyVendor)
+				switch {
+				case bad:
+					msg = "search panicked: " + p
+				case !defined:
+					// not resolvable through the dictionary: "not found" or the reference result
+					if (len(got) != 0 && !samePtrs(got, want)) || (one != nil && (len(want) == 0 || one != want[0])) {
+						msg = fmt.Sprintf("search for the undefined code %d returned AVPs that are not the reference result", code)
+					}
+				case !samePtrs(got, want) || (len(want) > 0 && err != nil):
+					msg = fmt.Sprintf("FindAVPs(%d) returned %d AVPs (err=%v), the reference walk finds %d", code, len(got), err, len(want))
+				case len(want) > 0 && (one != want[0] || err1 != nil):
+					msg = fmt.Sprintf("FindAVP(%d) did not return the first AVP in document order (err=%v)", code, err1)
+				case len(want) == 0 && (one != nil || err1 == nil):
+					msg = fmt.Sprintf("FindAVP(%d) for an absent code returned %v, err=%v", code, one, err1)
+				}
+				if msg != "" {
+					mu.Lock()
+					if problem == "" {
+						problem = msg
+					}
+					mu.Unlock()
+					return
+				}
+			}
+		}()
+	}
+	close(start)
+	wg.Wait()
+	c.Event("queries", G*400)
+	c.Event("concurrent_search_rounds", 1)
+	if problem != "" {
+		c.Fail(ev.Sig{"op": "concurrent-search", "kind": "present"}, nil, nil, "%d goroutines searching one message of %d top-level AVPs at the same time: %s", G, len(m.Nodes), problem)
+	}
 }
 
 func firstPtrDiff(a, b []*diam.AVP) int {
